@@ -129,6 +129,20 @@ def wellcond_matrix(draw, n, complex_=False, maxfactor=4.0):
                 if draw(st.booleans()):
                     V[i, j] = draw(fl(-1.0, 1.0)) * 1j
         M = (M.astype(complex) @ np.diag(np.exp(1j * np.array(ph))) @ V)
+        # left factor: complex Givens rotations (unitary, so the conditioning is unchanged);
+        # without it M = (real matrix) x (phases) x (unipotent), which is too special to
+        # expose e.g. a missing complex conjugation in a left kernel
+        if n >= 2:
+            for _ in range(draw(st.integers(1, n))):
+                i = draw(st.integers(0, n - 2))
+                j = draw(st.integers(i + 1, n - 1))
+                th = draw(fl(0.2, 1.3))
+                al = draw(fl(-math.pi, math.pi))
+                G = np.eye(n, dtype=complex)
+                G[i, i] = G[j, j] = math.cos(th)
+                G[i, j] = -math.sin(th) * np.exp(-1j * al)
+                G[j, i] = math.sin(th) * np.exp(1j * al)
+                M = G @ M
         return [[[float(z.real), float(z.imag)] for z in row] for row in M]
     return [[float(x) for x in row] for row in M]
 
